@@ -1082,8 +1082,15 @@ impl OverlayFs {
             let parent = v.parent.lock().unwrap();
 
             if let Some(p) = parent.upgrade() {
-                // remove it from hashmap
-                p.remove_child(v.name.as_str());
+                // Remove it from the parent's hashmap, but only if the name still refers to this
+                // very node: after unlink/rmdir the name may already belong to a whiteout node or
+                // to a re-created file, which must survive the forget of the old inode.
+                let mut childrens = p.childrens.lock().unwrap();
+                if let Some(c) = childrens.get(v.name.as_str()) {
+                    if Arc::ptr_eq(c, &v) {
+                        childrens.remove(v.name.as_str());
+                    }
+                }
             }
         }
     }
